@@ -1,11 +1,8 @@
 package main
 
 import (
-	"bytes"
 	"fmt"
-	"math/big"
 	"math/rand"
-	"strconv"
 	"os"
 	"path/filepath"
 	"strings"
@@ -16,141 +13,8 @@ import (
 
 func init() { register("C12", "exploration", runC12) }
 
-type hostile struct {
-	data   []byte
-	chunks []int
-	origin string
-}
-
-func mutateNumber(rng *rand.Rand, orig string) string {
-	opts := []string{"0", "-1", "-0", "-2", "", "+" + orig, "0" + orig, " " + orig, orig + " ", "99999999999999999999999999999", "18446744073709551616",
-		"9223372036854775807", "-9223372036854775808", "2147483648", "4294967296", "1048577", "536870913", "1e3", "0x10", orig + "a", "٣",
-		"9223372036854775808", "9223372036854775809", "18446744073709551617", "18446744073709551618", "18446744073709551619", "36893488147419103234",
-		"18446744073709551620", "-9223372036854775809", "00000000000000000000" + orig, "184467440737095516160000000003"}
-	if v, err := strconv.Atoi(orig); err == nil && rng.Intn(6) == 0 {
-		// 2^64 + v: wraps to exactly v in a 64-bit accumulator
-		return new(big.Int).Add(new(big.Int).Lsh(big.NewInt(1), 64), big.NewInt(int64(v))).String()
-	}
-	return opts[rng.Intn(len(opts))]
-}
-
-// genHostile produces one hostile input: a valid request stream with a
-// grammar-aware mutation, or random bytes.
-func genHostile(rng *rand.Rand) hostile {
-	var valid []byte
-	nreq := 1 + rng.Intn(3)
-	for i := 0; i < nreq; i++ {
-		switch rng.Intn(4) {
-		case 0:
-			valid = append(valid, Req("SET", "hk"+itoa(rng.Intn(100)), "value")...)
-		case 1:
-			valid = append(valid, Req("MGET", "ha", "hb", "hc")...)
-		case 2:
-			valid = append(valid, Req("PING")...)
-		default:
-			valid = append(valid, Req("GET", "hk"+itoa(rng.Intn(100)))...)
-		}
-	}
-	h := hostile{origin: "mutation"}
-	d := append([]byte(nil), valid...)
-	// positions of header lines
-	type hdr struct{ start, end int } // [start,end) of the number text
-	var hdrs []hdr
-	for i := 0; i < len(d); i++ {
-		if (d[i] == '*' || d[i] == '$') && (i == 0 || d[i-1] == '\n') {
-			j := i + 1
-			for j < len(d) && d[j] != '\r' {
-				j++
-			}
-			hdrs = append(hdrs, hdr{i + 1, j})
-		}
-	}
-	switch rng.Intn(16) {
-	case 0, 1, 2, 3: // number mutation
-		x := hdrs[rng.Intn(len(hdrs))]
-		nw := mutateNumber(rng, string(d[x.start:x.end]))
-		d = append(append(append([]byte(nil), d[:x.start]...), nw...), d[x.end:]...)
-		h.origin = "number-mutation"
-	case 4: // wrong type marker
-		x := hdrs[rng.Intn(len(hdrs))]
-		d[x.start-1] = "+-:$*%~#!x"[rng.Intn(10)]
-		h.origin = "type-marker"
-	case 5: // bare LF
-		i := bytes.Index(d, []byte("\r\n"))
-		k := rng.Intn(bytes.Count(d, []byte("\r\n")))
-		for ; k > 0; k-- {
-			i += 2 + bytes.Index(d[i+2:], []byte("\r\n"))
-		}
-		d = append(append([]byte(nil), d[:i]...), d[i+1:]...)
-		h.origin = "bare-LF"
-	case 6: // bare CR
-		i := bytes.Index(d, []byte("\r\n"))
-		d = append(append(append([]byte(nil), d[:i+1]...)), d[i+2:]...)
-		h.origin = "bare-CR"
-	case 7: // inline command
-		d = []byte([]string{"PING\r\n", "GET foo\r\n", "SET a b\r\n", "get\n", "QUIT\r\n", "\r\n", "\n", " \r\n"}[rng.Intn(8)])
-		d = append(d, valid...)
-		h.origin = "inline"
-	case 8: // truncation followed by garbage
-		cut := rng.Intn(len(d) + 1)
-		g := make([]byte, 1+rng.Intn(30))
-		rng.Read(g)
-		d = append(append([]byte(nil), d[:cut]...), g...)
-		h.origin = "truncate+garbage"
-	case 9: // NULs
-		for k := 1 + rng.Intn(4); k > 0; k-- {
-			d[rng.Intn(len(d))] = 0
-		}
-		h.origin = "NULs"
-	case 10: // random bytes
-		d = make([]byte, 1+rng.Intn(200))
-		rng.Read(d)
-		h.origin = "random-bytes"
-	case 11: // random bytes starting like RESP
-		d = make([]byte, 4+rng.Intn(60))
-		rng.Read(d)
-		copy(d, []byte("*"+itoa(rng.Intn(4))+"\r\n"))
-		h.origin = "random-after-count"
-	case 12: // only headers, nothing else
-		d = []byte([]string{"*\r\n", "*\n", "*2\n", "$3\r\nabc\r\n", "*1\r\n$\r\n", "*1\r\n$1\r\n", "**1\r\n", "*1\r\n\r\n", "*1\r\n$-1\r\n", "*0\r\n", "*-1\r\n", "*1\r\n$0\r\n\r\n"}[rng.Intn(12)])
-		if rng.Intn(2) == 0 {
-			d = append(d, valid...)
-		}
-		h.origin = "header-only"
-	case 13: // byte flip
-		d[rng.Intn(len(d))] ^= byte(1 << uint(rng.Intn(8)))
-		h.origin = "bit-flip"
-	case 14: // delete / duplicate a byte
-		i := rng.Intn(len(d))
-		if rng.Intn(2) == 0 {
-			d = append(append([]byte(nil), d[:i]...), d[i+1:]...)
-		} else {
-			d = append(append(append([]byte(nil), d[:i+1]...), d[i]), d[i+1:]...)
-		}
-		h.origin = "byte-delete/dup"
-	default: // payload length off by one
-		x := hdrs[rng.Intn(len(hdrs))]
-		if d[x.start-1] == '$' {
-			var v int
-			fmt.Sscan(string(d[x.start:x.end]), &v)
-			nw := itoa(v + []int{-1, 1, 2}[rng.Intn(3)])
-			d = append(append(append([]byte(nil), d[:x.start]...), nw...), d[x.end:]...)
-		}
-		h.origin = "length-off-by-one"
-	}
-	h.data = d
-	if rng.Intn(2) == 0 {
-		for rem := len(d); rem > 0; {
-			s := 1 + rng.Intn(12)
-			h.chunks = append(h.chunks, s)
-			rem -= s
-		}
-	}
-	return h
-}
-
 func runC12(c *Check, rng *rand.Rand) {
-	c.Rule = "grammar-based mutations of valid request streams (counts/lengths zero, negative, -0, huge, non-canonical, empty; wrong type markers; bare LF / CR; inline commands; truncation + garbage; NULs; bit flips; random bytes) in random segmentation, batches of connections; oracles: (1) proxy alive, RSS < 8 GB; (2) witness connections keep getting correct replies; (3) the fake nodes' Redis-conformant parser never sees a protocol error; (4) input that is not a prefix of any well-formed request stream ends in an error reply or a closed connection (judged after the event-loop barrier, re-checked after 1 s); distinct = distinct inputs; non-trivial = input differs from a well-formed stream"
+	c.Rule = "grammar-based mutations of valid request streams (counts/lengths zero, negative, -0, huge, non-canonical, empty; wrong type markers; bare LF / CR; inline commands; truncation + garbage; NULs; bit flips; random bytes) in random segmentation, batches of connections; oracles: (1) proxy alive, RSS < 8 GB; (2) witness connections keep getting correct replies; (3) the fake nodes' Redis-conformant parser never sees a protocol error; (4) input that is not a prefix of any well-formed request stream ends in an error reply or a closed connection (judged after the event-loop barrier, re-checked after 1 s); distinct = distinct inputs; non-trivial = input differs from a well-formed stream; plus an in-process monitor that feeds the same generator to the real client decoder (hundreds of thousands to millions of inputs) and compares its verdict (requests recognised, invalid / incomplete / complete) with the reference stream classifier, panics included"
 	c.Assumptions = []string{
 		"well-formed request stream = RESP arrays '*n' (canonical decimal, 1..1048576) of bulk strings '$len' (canonical, 0..512MB) each terminated by CRLF; valid prefixes must simply wait (C08) and oversized-but-well-formed counts/lengths carry no requirement under (4)",
 		"(3) flags only what a Redis server rejects with a protocol error (count/length not parsable by string2ll or out of range, missing '$'); stricter findings of the fake parser are reported as 'lenient' diagnostics only",
@@ -161,6 +25,18 @@ func runC12(c *Check, rng *rand.Rand) {
 	}
 	for _, mode := range modes {
 		c12mode(c, rng, mode)
+	}
+	// in-process: the same generator against the real decoder, by the million
+	// (one goroutine: the decoder is written for a single-threaded event loop and keeps global scratch state)
+	n := "400000"
+	if c.Thorough() {
+		n = "20000000"
+	}
+	if r := runE2(c, "", "c12", 40*time.Minute, "--n", n, "--workers", "1"); r != nil {
+		c.DistinctN(r.Distinct)
+	}
+	if c.Thorough() {
+		runE2(c, "race", "c12", 40*time.Minute, "--n", "1000000", "--workers", "1")
 	}
 	c.MinEvals = 500
 }
@@ -181,11 +57,11 @@ func c12mode(c *Check, rng *rand.Rand, mode string) {
 	os.MkdirAll(casedir, 0o755)
 	mfSeen := 0
 	for done := 0; done < total; done += batchSize {
-		batch := make([]hostile, batchSize)
+		batch := make([]Hostile, batchSize)
 		var dump strings.Builder
 		for i := range batch {
-			batch[i] = genHostile(rng)
-			fmt.Fprintf(&dump, "%q %v\n", batch[i].data, batch[i].chunks)
+			batch[i] = GenHostile(rng)
+			fmt.Fprintf(&dump, "%q %v\n", batch[i].Data, batch[i].Chunks)
 		}
 		// inputs on disk before sending: a crash is attributed to this batch
 		os.WriteFile(filepath.Join(casedir, "last_batch.txt"), []byte(dump.String()), 0o644)
@@ -196,7 +72,7 @@ func c12mode(c *Check, rng *rand.Rand, mode string) {
 				break
 			}
 			clients[i] = cl
-			cl.SendChunks(h.data, h.chunks, 0)
+			cl.SendChunks(h.Data, h.Chunks, 0)
 		}
 		// witness pipeline while the hostile inputs are being digested
 		wok := c12witness(c, env, script, rng)
@@ -207,9 +83,9 @@ func c12mode(c *Check, rng *rand.Rand, mode string) {
 			shape := "unknown-input"
 			var wit interface{} = dump.String()
 			if culprit != nil {
-				cls := ClassifyStream(culprit.data)
+				cls := ClassifyStream(culprit.Data)
 				shape = cls.State + ":" + cls.Reason
-				wit = map[string]interface{}{"input": Q(culprit.data), "chunks": culprit.chunks, "origin": culprit.origin, "panic": env.P.PanicLine()}
+				wit = map[string]interface{}{"input": Q(culprit.Data), "chunks": culprit.Chunks, "origin": culprit.Origin, "panic": env.P.PanicLine()}
 			}
 			c.Violate(Violation{Class: "proxy-died", Shape: shape, Detail: "proxy process died while digesting hostile client input: " + env.P.PanicLine(), Witness: wit})
 			for _, cl := range clients {
@@ -235,9 +111,9 @@ func c12mode(c *Check, rng *rand.Rand, mode string) {
 			if clients[i] == nil {
 				continue
 			}
-			cls := ClassifyStream(h.data)
+			cls := ClassifyStream(h.Data)
 			c.Eval(1)
-			c.Distinct(string(h.data))
+			c.Distinct(string(h.Data))
 			c.Count("inputs_"+cls.State, 1)
 			if cls.State != "invalid" {
 				continue
@@ -252,12 +128,12 @@ func c12mode(c *Check, rng *rand.Rand, mode string) {
 			env.Barrier()
 			for _, i := range recheck {
 				h := batch[i]
-				cls := ClassifyStream(h.data)
+				cls := ClassifyStream(h.Data)
 				s := clients[i].Snapshot()
 				if !(s.Closed || len(s.Replies) > cls.Complete) {
 					c.Violate(Violation{Class: "invalid-input-left-waiting", Shape: cls.Reason,
 						Detail:  fmt.Sprintf("input is not a prefix of any well-formed request stream (%s at offset %d) but the connection is neither closed nor answered with an error (%d replies for %d complete requests)", cls.Reason, cls.Offset, len(s.Replies), cls.Complete),
-						Witness: map[string]interface{}{"input": Q(h.data), "chunks": h.chunks, "origin": h.origin, "received": valStrings(s.Replies)}})
+						Witness: map[string]interface{}{"input": Q(h.Data), "chunks": h.Chunks, "origin": h.Origin, "received": valStrings(s.Replies)}})
 				}
 			}
 		}
@@ -266,12 +142,12 @@ func c12mode(c *Check, rng *rand.Rand, mode string) {
 			if clients[i] == nil {
 				continue
 			}
-			cls := ClassifyStream(h.data)
+			cls := ClassifyStream(h.Data)
 			s := clients[i].Snapshot()
 			if cls.State == "invalid" && len(s.Replies) > cls.Complete && s.Replies[len(s.Replies)-1].Val.Kind != '-' {
 				c.Violate(Violation{Class: "invalid-input-answered-with-success", Shape: cls.Reason,
 					Detail:  fmt.Sprintf("invalid input (%s) produced %d replies for %d complete requests, the last one not an error: %s", cls.Reason, len(s.Replies), cls.Complete, s.Replies[len(s.Replies)-1].Val.String()),
-					Witness: map[string]interface{}{"input": Q(h.data), "received": valStrings(s.Replies)}})
+					Witness: map[string]interface{}{"input": Q(h.Data), "received": valStrings(s.Replies)}})
 			}
 			clients[i].Close()
 		}
@@ -288,8 +164,8 @@ func c12mode(c *Check, rng *rand.Rand, mode string) {
 		}
 		mfSeen = len(mf)
 		if done == 0 {
-			c.Sample(map[string]interface{}{"input": Q(batch[0].data), "chunks": batch[0].chunks, "origin": batch[0].origin, "reference_class": ClassifyStream(batch[0].data)})
-			c.Sample(map[string]interface{}{"input": Q(batch[1].data), "origin": batch[1].origin, "reference_class": ClassifyStream(batch[1].data)})
+			c.Sample(map[string]interface{}{"input": Q(batch[0].Data), "chunks": batch[0].Chunks, "origin": batch[0].Origin, "reference_class": ClassifyStream(batch[0].Data)})
+			c.Sample(map[string]interface{}{"input": Q(batch[1].Data), "origin": batch[1].Origin, "reference_class": ClassifyStream(batch[1].Data)})
 		}
 	}
 	c.Count("proxy_max_rss_kb_"+modeName(mode), env.P.RSSKB())
@@ -333,7 +209,7 @@ func c12witness(c *Check, env *Env, script *Script, rng *rand.Rand) bool {
 
 // c12bisect re-sends the batch's inputs one by one to fresh proxies to name
 // the input that kills the process (bounded: at most the batch size).
-func c12bisect(c *Check, env *Env, batch []hostile) *hostile {
+func c12bisect(c *Check, env *Env, batch []Hostile) *Hostile {
 	if err := env.Restart(); err != nil {
 		return nil
 	}
@@ -342,7 +218,7 @@ func c12bisect(c *Check, env *Env, batch []hostile) *hostile {
 		if err != nil {
 			return nil
 		}
-		cl.SendChunks(batch[i].data, batch[i].chunks, 0)
+		cl.SendChunks(batch[i].Data, batch[i].Chunks, 0)
 		env.W.Barrier(3, 3*time.Second)
 		time.Sleep(2 * time.Millisecond)
 		cl.Close()
